@@ -3,7 +3,7 @@ From Coq Require Import List NArith Bool String Ascii.
 Import ListNotations.
 Local Open Scope N_scope.
 
-Definition bytes := list N.
+Notation bytes := (list N) (only parsing).
 
 Fixpoint beqb (a b : bytes) : bool :=
   match a, b with
